@@ -44,6 +44,16 @@ CLAIMED = {
         'under a move of the reference surface. A genuine defect (wrong sign passed by Panel.calc_kM) was repaired (fix: ca9efb9).',
    note='As C02; LAPACK eigh trusted for the invariance predicate.',
    technique='Lean 4 proof over regenerated model + translation validation + oracle', ref='4/C04'),
+ 'C12': dict(
+   text='Lean models of all 15 penalty-connection block kernels (5 kinds x 11/12/22) REGENERATED from kC*.pyx each run; 15 theorems: '
+        'each block entry equals the second derivative of kt/2 Int|jump u|^2 + kr/2 Int(jump rotation)^2 for that kind (jump operator '
+        'tables in Spec/Interface.lean: edge-to-edge along x or y, base-to-perpendicular-flange along x or y with the axis swap, '
+        'face-to-face with thickness offset) for all indices, flags, geometries, positions. V: IR of every block vs the running kernels; '
+        'implementation arm: mismatch-energy oracle vs PanelAssembly.get_k0_conn for both panel orders, symmetry, PSD; calc_kt_kr '
+        'symmetric/linear. A genuine defect (coupling block dropped when p1 follows p2) was repaired.',
+   note='As C02; interface length/footprint shared by both panels (as the kernels assume); get_k0_conn glue checked by oracle on '
+        'explored assemblies; kCLTxycte has no kernel module in the tree.',
+   technique='Lean 4 proof over regenerated model + translation validation + energy oracle', ref='4/C12'),
  'C14': dict(
    text='17 theorems between the REGENERATED kernel models: conical entries at sin(alpha)=0, cos(alpha)=1 equal the cylindrical '
         'entries section by section (k0, kG0, kM) and are additive in the x-integrals (so equal-radius sections telescope); '
